@@ -198,6 +198,12 @@ class C16(RailsProp):
                 out.violate("log-lists-wrong-rails", cc, "request %d: log.activated_rails lists %r; the rail actions really invoked were %r" % (t, [(a, b) for a, b, _ in listed], [(a, b) for a, b, _ in truth]))
             elif [s for _, _, s in listed] != [s for _, _, s in truth]:
                 out.violate("log-stop-flag", cc + (":exceptions" if sc.get("exceptions") else ""), "request %d: log.activated_rails stop flags %r; the rails that really rejected: %r" % (t, listed, truth))
+            # ... and the retrieval rails that ran: the log has no rail type of their own for them (they run inside the flow that
+            # generates the bot message), their actions are listed among the executed actions of the activated rails
+            listed_ret = sum(1 for ar in log.activated_rails for ea in (ar.executed_actions or []) if ea.action_name == "sim_retrieval")
+            truth_ret = sum(1 for e in rec.events if e["kind"] == "retrieval")
+            if listed_ret != truth_ret:
+                out.violate("log-lists-wrong-rails", cc + ":retrieval-actions", "request %d: log.activated_rails lists %d executed retrieval rail action(s); %d were really invoked" % (t, listed_ret, truth_ret))
             if any(s for _, _, s in truth):
                 out.probe("blocked_with_stop_flag")
         else:
